@@ -71,7 +71,7 @@ func (in *Interp) mergeVal(c *Term, a, b Value) (Value, bool) {
 		for i := range out {
 			out[i] = in.tt.Ite(c, av.b[i], bv.b[i])
 		}
-		return Str{out}, true
+		return Str{b: out}, true
 	case Struct:
 		bv, ok := b.(Struct)
 		if !ok || len(av) != len(bv) {
